@@ -213,12 +213,20 @@ def run(ctx):
         ret = p.outcome[1]
         past = [v for a, v in g if isinstance(a, tuple) and a[0] == "binop" and a[1] in ("Ge", "Lt") and a[2] == ci and a[3] == T("len", terms)]
         past_true = bool(past) and ((past[0] is True) == ([a[1] for a, v in g if isinstance(a, tuple) and a[0] == "binop" and a[2] == ci][0] == "Ge"))
+        # the same test written as terminals.get(char_i): None <=> the index is past the letters
+        getc = [(a, v) for a, v in g if isinstance(a, tuple) and a[0] == "variantof" and isinstance(a[1], tuple) and a[1][0] == "call" and method_name(a[1][1]) == "get"
+                and "HashMap" not in a[1][1] and len(a[1][2]) == 2 and mir.strip(a[1][2][0]) == terms and a[1][2][1] == ci]
+        if getc and getc[0][1] == "None":
+            past_true = True
         if past_true:
             classes.add("past-end")
             ck.ob("C13-T4", cb.path, "index-past-the-letters->unmapped", _is_ok_none(ret))
             continue
         ch = T("index", terms, ci)
-        sp = [v for a, v in g if Walker._eq_const(a) is not None and mir.strip(Walker._eq_const(a)[0]) == ch and Walker._eq_const(a)[1] == 32]
+        chs = {ch}
+        if getc:
+            chs.add(T("field", T("variant", getc[0][0][1], "Some"), "0"))
+        sp = [v for a, v in g if Walker._eq_const(a) is not None and mir.strip(Walker._eq_const(a)[0]) in chs and Walker._eq_const(a)[1] == 32]
         if sp == [True]:
             classes.add("space")
             ck.ob("C13-T4", cb.path, "space->unmapped", _is_ok_none(ret))
@@ -228,7 +236,7 @@ def run(ctx):
             ck.ob("C13-T4", cb.path, "path-class", False, detail=str([(show(a)[:40], v) for a, v in g]))
             continue
         a, v = look[0]
-        key_ok = mir.strip(a[1][2][1]) == ch and any("CHAR_ACCESS_MAP" in str(s) for s in subterms(a[1][2][0]))
+        key_ok = mir.strip(a[1][2][1]) in chs and any("CHAR_ACCESS_MAP" in str(s) for s in subterms(a[1][2][0]))
         if v == "None":
             classes.add("unknown")
             ck.ob("C13-T4", cb.path, "unknown-character->error", key_ok and isinstance(ret, tuple) and ret[0] == "agg" and ret[2] == "Err")
